@@ -358,18 +358,19 @@ _INSTANCES = {}
 _EXCLUDE = set()
 
 
-def inlined(prog, func, depth=2, exclude=()):
+def inlined(prog, func, depth=2, exclude=(), owner=None):
+    """owner: the class through which an inherited method is looked at (self.x() then resolves to that class's overriding methods)."""
     global _EXCLUDE
     _EXCLUDE = set(exclude)
     try:
-        return _inlined(prog, func, depth)
+        return _inlined(prog, func, depth, owner)
     finally:
         _EXCLUDE = set()
 
 
-def _inlined(prog, func, depth=2):
+def _inlined(prog, func, depth=2, owner_override=None):
     module = getattr(func, "_module", None)
-    owner = getattr(func, "_parent", None)
+    owner = owner_override if owner_override is not None else getattr(func, "_parent", None)
     owner_cls = owner if isinstance(owner, ast.ClassDef) else None
     if owner_cls is not None:
         inst = set()
